@@ -330,6 +330,167 @@ theorem cap_sound1 (cap : Int) (ds : List Dem1) (p : Nat) (x : Dem1) (hp : p ≤
         omega
       · rw [hcurAt] at hC2; omega
 
+/-! ## completeness of the capacity test (one dimension)
+
+The caches are not only upper bounds, they are attained: `max_past` is `m` or one of the loads it summarises,
+`max_future` is one of the loads from the pivot on. Hence, for the demand shapes the readers can produce (static parts
+only, or no static pickup, more generally `dd ≤ dp` whenever there is a static pickup) the O(1) test refuses nothing
+that the step-by-step profile admits. -/
+
+theorem runMax1_attained (m : Int) (ls : List Int) (i : Nat) (hi : i < ls.length) :
+    (runMax1 m ls).getD i 0 = m ∨ (runMax1 m ls).getD i 0 ∈ ls.take (i + 1) := by
+  induction ls generalizing m i with
+  | nil => simp at hi
+  | cons a r ih =>
+    cases i with
+    | zero =>
+      simp only [runMax1, List.getD_cons_zero, List.take_succ_cons, List.take_zero, List.mem_singleton]
+      omega
+    | succ i =>
+      have hi' : i < r.length := by simpa using hi
+      simp only [runMax1, List.getD_cons_succ, List.take_succ_cons, List.mem_cons]
+      rcases ih (max m a) i hi' with h | h
+      · rw [h]; omega
+      · exact Or.inr (Or.inr h)
+
+theorem maxFuture1_attained (ls : List Int) (i : Nat) (hi : i < ls.length) :
+    (maxFuture1 ls).getD i 0 ∈ ls.drop i := by
+  induction ls generalizing i with
+  | nil => simp at hi
+  | cons a r ih =>
+    cases r with
+    | nil =>
+      have : i = 0 := by simp at hi; omega
+      subst this
+      simp [maxFuture1]
+    | cons b q =>
+      have hlen := maxFuture1_length (b :: q)
+      cases h : maxFuture1 (b :: q) with
+      | nil => rw [h] at hlen; simp at hlen
+      | cons m tail =>
+        simp only [maxFuture1, h]
+        cases i with
+        | zero =>
+          simp only [List.getD_cons_zero, List.drop_zero, List.mem_cons]
+          have h0 := ih 0 (by simp)
+          rw [h] at h0
+          simp only [List.getD_cons_zero, List.drop_zero, List.mem_cons] at h0
+          by_cases hc : m ≤ a
+          · left; omega
+          · right
+            have : max a m = m := by omega
+            rw [this]; exact h0
+        | succ i =>
+          simp only [List.getD_cons_succ, List.drop_succ_cons]
+          have := ih i (by simpa using hi)
+          rw [h] at this
+          exact this
+
+/-- **C06 completeness (capacity, one dimension)**: if the load profile with the job inserted at `p` stays within
+    capacity, all loads of the tour are non-negative, and the demand has no static pickup together with a larger
+    dynamic delivery (`sp = 0 ∨ dd ≤ dp`: every shape the readers produce), then the O(1) test on the cached
+    maxima reports no violation - the test refuses nothing the step-by-step simulation admits. -/
+theorem cap_complete1 (cap : Int) (ds : List Dem1) (p : Nat) (x : Dem1) (hp : p ≤ ds.length)
+    (hpos : ∀ l ∈ loads1 ds, 0 ≤ l)
+    (hshape : x.sp = 0 ∨ x.dd ≤ x.dp)
+    (hins : capOk1 cap (insertAt1 ds p x)) :
+    viol1 cap ((runMax1 0 (loads1 ds)).getD p 0) ((maxFuture1 (loads1 ds)).getD p 0)
+      ((loads1 ds).getD p 0) x = false := by
+  have hlen : (loads1 ds).length = ds.length + 1 := by simp [loads1, after1_length]
+  have hp' : p < (loads1 ds).length := by omega
+  -- the segments the caches summarise (as in `cap_sound1`)
+  have htake : (loads1 ds).take (p + 1) = startLoad1 ds :: after1 (startLoad1 ds) (ds.take p) := by
+    rw [loads1_split ds p]
+    have : (startLoad1 ds :: after1 (startLoad1 ds) (ds.take p)).length = p + 1 := by
+      simp [after1_length]; omega
+    rw [List.take_append_of_le_length (by omega), List.take_of_length_le (by omega)]
+  have hdrop : (loads1 ds).drop p = (startLoad1 ds + total (ds.take p)) ::
+      after1 (startLoad1 ds + total (ds.take p)) (ds.drop p) := by
+    have hlenA : (after1 (startLoad1 ds) (ds.take p)).length = p := by simp [after1_length]; omega
+    have hlenT : (ds.take p).length = p := by simp; omega
+    rw [loads1_split ds p]
+    rw [List.drop_append_of_le_length (by simp [hlenA])]
+    have := drop_len_after1 (startLoad1 ds) (ds.take p)
+    rw [hlenT] at this
+    rw [this]; simp
+  have hcurAt : (loads1 ds).getD p 0 = startLoad1 ds + total (ds.take p) := by
+    have h0 : ((loads1 ds).drop p).head? = some ((loads1 ds).getD p 0) := by
+      rw [List.head?_drop]
+      simp [List.getD_eq_getElem?_getD, List.getElem?_eq_getElem hp']
+    rw [hdrop] at h0
+    simpa using h0.symm
+  -- what the inserted profile says about the old segments
+  have hnewPast : ∀ l ∈ startLoad1 ds :: after1 (startLoad1 ds) (ds.take p), l + x.sd ≤ cap := by
+    intro l hl
+    apply hins
+    unfold loads1
+    rw [startLoad1_insert]
+    unfold insertAt1
+    rw [after1_append]
+    simp only [List.mem_cons, List.mem_append]
+    rcases List.mem_cons.mp hl with rfl | hl
+    · left; rfl
+    · right; left
+      rw [after1_shift]
+      exact List.mem_map.mpr ⟨l, hl, rfl⟩
+  have hnewFut : ∀ l ∈ (startLoad1 ds + total (ds.take p)) ::
+      after1 (startLoad1 ds + total (ds.take p)) (ds.drop p), l + (x.change + x.sd) ≤ cap := by
+    intro l hl
+    have key : l + (x.change + x.sd) ∈ loads1 (insertAt1 ds p x) := by
+      unfold loads1
+      rw [startLoad1_insert]
+      unfold insertAt1
+      rw [after1_append]
+      simp only [after1, List.mem_cons, List.mem_append]
+      rcases List.mem_cons.mp hl with rfl | hl
+      · right; right; left
+        unfold Dem1.change; omega
+      · right; right; right
+        have e : startLoad1 ds + x.sd + total (ds.take p) + x.change
+            = (startLoad1 ds + total (ds.take p)) + (x.change + x.sd) := by omega
+        rw [e, after1_shift]
+        exact List.mem_map.mpr ⟨l, hl, rfl⟩
+    exact hins _ key
+  -- the cached values are attained
+  have hpastV := runMax1_attained 0 (loads1 ds) p hp'
+  have hfutV := maxFuture1_attained (loads1 ds) p hp'
+  rw [htake] at hpastV
+  rw [hdrop] at hfutV
+  have hS0 : 0 ≤ startLoad1 ds := hpos _ (by simp [loads1])
+  have hpastLe : (runMax1 0 (loads1 ds)).getD p 0 + x.sd ≤ cap := by
+    rcases hpastV with h0 | hm
+    · -- the running maximum is the initial zero: the departure load is not below it
+      have hge := runMax1_ge 0 (loads1 ds) p hp' (startLoad1 ds) (by rw [htake]; simp)
+      have := hnewPast (startLoad1 ds) (by simp)
+      omega
+    · exact hnewPast _ hm
+  have hfutLe : (maxFuture1 (loads1 ds)).getD p 0 + (x.change + x.sd) ≤ cap := hnewFut _ hfutV
+  have hcurLe : (loads1 ds).getD p 0 + (x.change + x.sd) ≤ cap := by
+    rw [hcurAt]; exact hnewFut _ (by simp)
+  unfold viol1
+  simp only [Bool.or_eq_false_iff, Bool.and_eq_false_iff, bne_eq_false_iff_eq, decide_eq_false_iff_not, Int.not_lt]
+  refine ⟨⟨Or.inr hpastLe, ?_⟩, Or.inr ⟨hfutLe, hcurLe⟩⟩
+  rcases hshape with hs | hs
+  · exact Or.inl hs
+  · right
+    unfold Dem1.change at hfutLe
+    omega
+
+/-- soundness and completeness together: on a tour with non-negative loads and for the demand shapes of the readers
+    the O(1) test decides exactly whether the inserted profile stays within capacity -/
+theorem cap_exact1 (cap : Int) (ds : List Dem1) (p : Nat) (x : Dem1) (hp : p ≤ ds.length)
+    (hok : capOk1 cap ds) (hpos : ∀ l ∈ loads1 ds, 0 ≤ l) (hshape : x.sp = 0 ∨ x.dd ≤ x.dp) :
+    viol1 cap ((runMax1 0 (loads1 ds)).getD p 0) ((maxFuture1 (loads1 ds)).getD p 0)
+      ((loads1 ds).getD p 0) x = false ↔ capOk1 cap (insertAt1 ds p x) :=
+  ⟨cap_sound1 cap ds p x hp hok, cap_complete1 cap ds p x hp hpos hshape⟩
+
+-- the shape condition is needed: a static pickup with a larger dynamic delivery is refused although it fits
+example : viol1 10 ((runMax1 0 (loads1 [⟨8, 0, 0, 0⟩])).getD 1 0) ((maxFuture1 (loads1 [⟨8, 0, 0, 0⟩])).getD 1 0)
+    ((loads1 [⟨8, 0, 0, 0⟩]).getD 1 0) ⟨3, 0, 0, 3⟩ = true ∧ capOk1 10 (insertAt1 [⟨8, 0, 0, 0⟩] 1 ⟨3, 0, 0, 3⟩) := by
+  constructor
+  · decide
+  · intro l hl; simp [loads1, insertAt1, startLoad1, after1, Dem1.change] at hl; omega
+
 /-! ### tie to the executable (vector) model for one dimension -/
 
 theorem hasDemandViolation_dim1 (cap past fut cur : Int) (x : Dem1) (st : Bool) :
